@@ -2,6 +2,7 @@
   C08 — `check_heralds_detectors`: exact characterisation of the three possible results.
 -/
 import PercevalModel.Model.C08
+import PercevalModel.Model.C08Glue
 
 namespace PM.C08
 
@@ -186,5 +187,39 @@ theorem heraldExceeds_iff (ds : List (AnyDet K)) (h : ℕ × ℕ) :
     · exact ⟨_, 2 ^ L, h1, rfl, h3⟩
 
 end heralds
+
+/-! ### herald selection (`Model/C08Glue.lean`) -/
+section select
+variable {K : Type} [Field K] [LinearOrder K]
+
+/-- selecting on the heralds keeps the entry of every state that satisfies them and nothing else -/
+theorem prob_selectHeralds (h : List (ℕ × ℕ)) (d : Dist (List ℕ) K) (t : List ℕ) :
+    prob (selectHeralds h d) t = if heraldsOk h t then prob d t else 0 := by
+  induction d with
+  | nil => simp [selectHeralds, prob]
+  | cons e rest ih =>
+    obtain ⟨k, v⟩ := e
+    unfold selectHeralds at ih ⊢
+    by_cases hk : heraldsOk h k
+    · rw [List.filter_cons_of_pos (by simpa using hk)]
+      simp only [prob]
+      by_cases hkt : k = t
+      · subst hkt; simp [hk]
+      · simp only [hkt, if_false]; exact ih
+    · rw [List.filter_cons_of_neg (by simpa using hk)]
+      simp only [prob]
+      by_cases hkt : k = t
+      · subst hkt; simp only [if_true]; rw [ih]; simp [hk]
+      · simp only [hkt, if_false]; exact ih
+
+theorem selectHeralds_idem (h : List (ℕ × ℕ)) (d : Dist (List ℕ) K) :
+    selectHeralds h (selectHeralds h d) = selectHeralds h d := by
+  unfold selectHeralds
+  rw [List.filter_filter]
+  congr 1
+  funext e
+  simp
+
+end select
 
 end PM.C08
